@@ -1,0 +1,68 @@
+//go:build verif
+
+package heur
+
+import (
+	. "github.com/paulsonkoly/chess-3/chess"
+)
+
+// VerifDigest is a digest of all history tables of mr.
+func (mr *MoveRanker) VerifDigest() uint64 {
+	h := uint64(0xcbf29ce484222325)
+	mr.verifEach(func(s Score) {
+		h ^= uint64(uint16(s))
+		h *= 0x100000001b3
+		h ^= h >> 29
+	})
+	return h
+}
+
+// VerifMaxAbs is the largest magnitude stored in any history table of mr.
+func (mr *MoveRanker) VerifMaxAbs() int {
+	m := 0
+	mr.verifEach(func(s Score) {
+		m = max(m, Abs(int(s)))
+	})
+	return m
+}
+
+// VerifNonZero counts the non-zero history entries of mr.
+func (mr *MoveRanker) VerifNonZero() int {
+	n := 0
+	mr.verifEach(func(s Score) {
+		if s != 0 {
+			n++
+		}
+	})
+	return n
+}
+
+func (mr *MoveRanker) verifEach(f func(Score)) {
+	for i := range mr.history.data {
+		for j := range mr.history.data[i] {
+			for _, v := range mr.history.data[i][j] {
+				f(v)
+			}
+		}
+	}
+	for i := range mr.captHist.data {
+		for j := range mr.captHist.data[i] {
+			for _, v := range mr.captHist.data[i][j] {
+				f(v)
+			}
+		}
+	}
+	for _, c := range mr.continuations {
+		for a := range c.data {
+			for b := range c.data[a] {
+				for d := range c.data[a][b] {
+					for e := range c.data[a][b][d] {
+						for _, v := range c.data[a][b][d][e] {
+							f(v)
+						}
+					}
+				}
+			}
+		}
+	}
+}
